@@ -7,7 +7,7 @@ MAPS = {
     # lifetimes
     'C03': r'^db\.(alive|ct|dt)$|^(rec|shown|stopped)\.(dest|dest\.(id|type|gen)|life)$',
     # connection attribution and isolation
-    'C04': r'^notice(\.closed)?$|^conns\.|^(shown)\.conn$|^shape\.(want\.(new|closed)|missing\.(new|closed)|extra\.(new|closed))',
+    'C04': r'^notice(\.closed)?$|^conns\.|^connline\.|^selected$|^(shown)\.conn$|^shape\.(want\.(new|closed|connline)|missing\.(new|closed|connline)|extra\.(new|closed|connline))|^shape\.want\.\w+\.got\.connline',
     # live view = matching messages, all recorded
     'C06': r'^shape\.(want\.msg|missing\.msg|extra\.msg|want\.sep\.got\.msg)|^recorded$|^shown\.(name|dir|nargs|target\.id)$|^selected$',
     # decoration from the protocol descriptions
